@@ -20,10 +20,10 @@ PROP = {
     "rule": ("one case = (history, restart height(s)). A history is 14-25 blocks on a real ExocoreApp (2-4 validators with boundary power splits, params.MaxNonce 2/3/4, "
              "2-3 token feeders with different intervals/start blocks, 0-12 create-price submissions per block through the real nonce check + "
              "CreatePrice msg server incl. wrong nonce / wrong based block / duplicate det-ids / second message of the same validator / outsider, "
-             "optionally one UpdateParams, one stake increase (validator power change) and one undelegation below MinSelfDelegation (removal-only validator update) that dogfood turns into validator updates at the next epoch end). The history is "
+             "optionally one UpdateParams or token registration (RegisterNewTokenAndSetTokenFeeder: new token / existing token with a new asset id), one stake increase (validator power change) and one undelegation below MinSelfDelegation (removal-only validator update) that dogfood turns into validator updates at the next epoch end). The history is "
              "run once without stopping; then for EVERY height r the multistore is rolled back to version r, the oracle's process-local state is "
              "dropped (verif hook) and blocks r+1.. are re-executed: the restarted twin. One extra twin per history is restarted three times. "
-             "9 directed histories come first: two reproducing the remaining known findings (finalized round reopened; reverted params update) and seven regression scenarios (repaired defects, removal-only validator update; untagged). distinct = distinct sha1 of the Coq case; all cases count as non-trivial "
+             "11 directed histories come first: two reproducing the remaining known findings (finalized round reopened; reverted params update) and nine regression scenarios (repaired defects, removal-only validator update, token registrations; untagged). Observed per block also: GetSpecifiedAssetsPrice of every registered asset id. distinct = distinct sha1 of the Coq case; all cases count as non-trivial "
              "(every case re-executes at least one block on a rebuilt aggregator)"),
     "explanation": ("Main theorem C14_restart_safe_iff: for all never-stopped histories over valid params, a block boundary (outside the narrow 'band' of feeders that just left their window with items still in the replay window) is restart-safe iff every round still inside its window is open or older than the last validator-set change; observational corollary C14_restart_safe; refutation C14_restart_refuted_final for the remaining defect class. Coq theorems about an executable model of the oracle's in-memory state, of what EndBlock persists and of "
                     "recacheAggregatorContext, for all histories; the model is tied to the code by differential execution (codes, store "
